@@ -371,12 +371,12 @@ func scenarioC01(r *Run) {
 		}
 		// (ii) liveness: same association and the bystander
 		if r.Ch.Choose(2, "probe") == 0 || k == n-1 {
-			if a.Heartbeat() == nil && r.AgentAlive() {
-				r.Violate("C01", "wedged-same-association:"+skelOf(name), "a valid Heartbeat Request on the same association got no answer within 5 s after: %s\n%s", name, strings.Join(r.Sim.BlockedTable(), "\n"))
+			if a.HeartbeatRetry() == nil && r.AgentAlive() {
+				r.Violate("C01", "wedged-same-association:"+skelOf(name), "a valid Heartbeat Request on the same association got no answer after three attempts following: %s\n%s", name, strings.Join(r.Sim.BlockedTable(), "\n"))
 				break
 			}
-			if b.Heartbeat() == nil && r.AgentAlive() {
-				r.Violate("C01", "wedged-other-association:"+skelOf(name), "a valid Heartbeat Request on another association got no answer within 5 s after: %s\n%s", name, strings.Join(r.Sim.BlockedTable(), "\n"))
+			if b.HeartbeatRetry() == nil && r.AgentAlive() {
+				r.Violate("C01", "wedged-other-association:"+skelOf(name), "a valid Heartbeat Request on another association got no answer after three attempts following: %s\n%s", name, strings.Join(r.Sim.BlockedTable(), "\n"))
 				break
 			}
 		}
